@@ -226,7 +226,7 @@ func (e *kvElection) Start(ctx context.Context) error {
 		if err := e.attemptAcquire(); err != nil {
 			e.recordAcquireAttempt("failed")
 			e.recordFailure(classifyErrorType(err))
-			e.becomeFollower()
+			e.stayFollower()
 		}
 	}()
 
@@ -275,7 +275,7 @@ func (e *kvElection) attemptAcquireWithRetry(ctx context.Context) {
 					zap.Error(err),
 				)...,
 			)
-			e.becomeFollower()
+			e.stayFollower()
 			return
 		}
 
@@ -481,9 +481,29 @@ func (e *kvElection) attemptPriorityTakeover(payloadBytes []byte) error {
 	return nil
 }
 
-func (e *kvElection) becomeFollower() {
+// becomeFollower gives up the leadership claim, if any, and continues as a
+// follower. It reports whether the instance was leader as seen under the same
+// lock hold that cleared the claim, so that exactly one caller per lost term
+// notifies the application (see demote).
+func (e *kvElection) becomeFollower() bool {
+	return e.enterFollowerState(true)
+}
+
+// stayFollower records that an acquisition attempt failed. Unlike becomeFollower
+// it never clears a leadership claim: a leftover or concurrent acquisition round
+// of this instance loses against the instance's own record and must not demote it.
+func (e *kvElection) stayFollower() {
+	e.enterFollowerState(false)
+}
+
+func (e *kvElection) enterFollowerState(demote bool) bool {
 	e.mu.Lock()
 	defer e.mu.Unlock()
+
+	wasLeader := e.isLeader.Load()
+	if wasLeader && !demote {
+		return false
+	}
 
 	fromState := StateInit
 	if s := e.state.Load(); s != nil {
@@ -492,7 +512,6 @@ func (e *kvElection) becomeFollower() {
 		}
 	}
 
-	wasLeader := e.isLeader.Load()
 	e.isLeader.Store(false)
 	e.state.Store(StateFollower)
 	e.lastTransition.Store(time.Now())
@@ -521,6 +540,31 @@ func (e *kvElection) becomeFollower() {
 			defer e.wg.Done()
 			e.watchLoop(e.ctx)
 		}()
+	}
+
+	return wasLeader
+}
+
+// demote steps down and invokes the OnDemote callback if, and only if, this call
+// is the one that ended the term. Every demotion cause goes through here, so the
+// callback runs exactly once per lost term however many causes fire at once.
+func (e *kvElection) demote(reason string) {
+	if !e.becomeFollower() {
+		return
+	}
+
+	e.mu.RLock()
+	onDemote := e.onDemote
+	e.mu.RUnlock()
+
+	if onDemote != nil {
+		log := e.getLogger()
+		log.Info("leader_demoted",
+			append(e.logWithContext(e.ctx),
+				zap.String("reason", reason),
+			)...,
+		)
+		onDemote()
 	}
 }
 
